@@ -196,7 +196,7 @@ theorem keys_removeFile (f : M) (t : Nat) (i a : Key) (h : f.keys.Nodup) : (remo
   · simp only [hc, if_false]; exact keys_put_nodup _ _ _ h
 
 /-- `abs` commutes with every step — no invariant needed: the alias files ARE the keyed store -/
-theorem abs_step (st : St) (op : Op) : abs (step st op).1 = specStep (abs st) op := by
+theorem abs_step_files (st : St) (op : Op) (hg : op ≠ .graceful) : abs (step st op).1 = specStep (abs st) op := by
   cases op with
   | add t i a =>
     by_cases hv : validIndex i = true
@@ -224,6 +224,7 @@ theorem abs_step (st : St) (op : Op) : abs (step st op).1 = specStep (abs st) op
   | list t => simp [step, specStep]
   | resolve t a => simp [step, specStep]
   | restart => rfl
+  | graceful => exact absurd rfl hg
 
 /-- the answers of add / remove / get / restart are the documented ones — no invariant needed -/
 theorem out_ok_files (st : St) (op : Op) (h : ∀ t, op ≠ .list t) (h2 : ∀ t a, op ≠ .resolve t a) :
@@ -238,6 +239,7 @@ theorem out_ok_files (st : St) (op : Op) (h : ∀ t, op ≠ .list t) (h2 : ∀ t
   | list t => exact absurd rfl (h t)
   | resolve t a => exact absurd rfl (h2 t a)
   | restart => simp [step, OutOk]
+  | graceful => simp [step, OutOk]
 
 
 theorem mv_removeMem (m : M) (t : Nat) (i a : Key) (t' : Nat) (a' i' : Key) :
@@ -335,6 +337,58 @@ theorem nodup_list_keys (m : M) (t : Nat) (h : m.keys.Nodup) :
       rw [← this]; exact List.mem_map_of_mem hm'
     · simp only [ht, decide_false]; exact ih h.2
 
+theorem memOk_restart {st : St} (h : MemOk st) : MemOk ({ files := st.files, mem := rebuild st.files } : St) := by
+  obtain ⟨g1, g2, g3⟩ := fold_rebuild st.files [] (by simp [AL.get]) (by simp [AL.keys])
+  refine ⟨g3, h.fileNodup, h.valid, ?_, g2⟩
+  intro t a i
+  show mv (rebuild st.files) t a i ↔ _
+  unfold rebuild
+  rw [g1]
+  constructor
+  · rintro (h0 | ⟨e, hm, _, he, ha, hne⟩)
+    · simp [mv, AL.get] at h0
+    · refine ⟨hne, ?_⟩
+      have hm2 : (e.1, e.2) ∈ st.files := hm
+      rw [mem_iff_get _ h.fileNodup, he] at hm2
+      unfold fv; rw [hm2]; exact ha
+  · rintro ⟨hne, hf⟩
+    obtain ⟨l, hl⟩ := fv_of_get hf
+    have hm : ((t, i), l) ∈ st.files := (mem_iff_get _ h.fileNodup _ _).2 hl
+    refine Or.inr ⟨((t, i), l), hm, validIndex_ne_nil (h.valid t i l hl), rfl, ?_, hne⟩
+    unfold fv at hf; rw [hl] at hf; exact hf
+
+/-- `FlushAliasMapToFile` writes nothing when the files already are the image of the memory map -/
+theorem flush_id {st : St} (h : MemOk st) : flush st.files st.mem = st.files := by
+  have inner : ∀ (is : List Key) (f : M) (t : Nat) (a : Key), (∀ i ∈ is, a ∈ (f.get (t, i)).getD []) →
+      is.foldl (fun f i => flushOne f t a i) f = f := by
+    intro is
+    induction is with
+    | nil => intro f t a _; rfl
+    | cons i r ih =>
+      intro f t a hall
+      simp only [List.foldl_cons]
+      have h1 : flushOne f t a i = f := by simp [flushOne, hall i List.mem_cons_self]
+      rw [h1]; exact ih f t a (fun j hj => hall j (List.mem_cons_of_mem _ hj))
+  have outer : ∀ (es : M) (f : M), (∀ e ∈ es, ∀ i ∈ e.2, e.1.2 ∈ (f.get (e.1.1, i)).getD []) →
+      es.foldl (fun f e => e.2.foldl (fun f i => flushOne f e.1.1 e.1.2 i) f) f = f := by
+    intro es
+    induction es with
+    | nil => intro f _; rfl
+    | cons e r ih =>
+      intro f hall
+      simp only [List.foldl_cons]
+      rw [inner e.2 f e.1.1 e.1.2 (hall e List.mem_cons_self)]
+      exact ih f (fun e' he' => hall e' (List.mem_cons_of_mem _ he'))
+  unfold flush
+  apply outer
+  intro e he i hi
+  have hg : st.mem.get e.1 = some e.2 := (mem_iff_get _ h.memNodup e.1 e.2).1 he
+  have hmv : mv st.mem e.1.1 e.1.2 i := by
+    unfold mv
+    show i ∈ (st.mem.get (e.1.1, e.1.2)).getD []
+    rw [show (e.1.1, e.1.2) = e.1 from rfl, hg]; exact hi
+  exact ((h.inverse e.1.1 e.1.2 i).1 hmv).2
+
 /-- every step keeps the two images consistent -/
 theorem step_memOk {st : St} (h : MemOk st) (op : Op) : MemOk (step st op).1 := by
   cases op with
@@ -400,26 +454,10 @@ theorem step_memOk {st : St} (h : MemOk st) (op : Op) : MemOk (step st op).1 := 
   | get t i => by_cases hv : validIndex i = true <;> simpa [step, hv] using h
   | list t => simpa [step] using h
   | resolve t a => simpa [step] using h
-  | restart =>
-    simp only [step]
-    obtain ⟨g1, g2, g3⟩ := fold_rebuild st.files [] (by simp [AL.get]) (by simp [AL.keys])
-    refine ⟨g3, h.fileNodup, h.valid, ?_, g2⟩
-    intro t a i
-    show mv (rebuild st.files) t a i ↔ _
-    unfold rebuild
-    rw [g1]
-    constructor
-    · rintro (h0 | ⟨e, hm, _, he, ha, hne⟩)
-      · simp [mv, AL.get] at h0
-      · refine ⟨hne, ?_⟩
-        have hm2 : (e.1, e.2) ∈ st.files := hm
-        rw [mem_iff_get _ h.fileNodup, he] at hm2
-        unfold fv; rw [hm2]; exact ha
-    · rintro ⟨hne, hf⟩
-      obtain ⟨l, hl⟩ := fv_of_get hf
-      have hm : ((t, i), l) ∈ st.files := (mem_iff_get _ h.fileNodup _ _).2 hl
-      refine Or.inr ⟨((t, i), l), hm, validIndex_ne_nil (h.valid t i l hl), rfl, ?_, hne⟩
-      unfold fv at hf; rw [hl] at hf; exact hf
+  | restart => exact memOk_restart h
+  | graceful =>
+    simp only [step, flush_id h]
+    exact memOk_restart h
 
 /-- with consistent images the answers of list / resolve (read from memory) are the documented ones -/
 theorem out_ok_mem {st : St} (h : MemOk st) (op : Op) : OutOk (abs st) op (step st op).2 := by
@@ -465,6 +503,7 @@ theorem out_ok_mem {st : St} (h : MemOk st) (op : Op) : OutOk (abs st) op (step 
   | remove t i a => exact out_ok_files st _ (fun _ => by simp) (fun _ _ => by simp)
   | get t i => exact out_ok_files st _ (fun _ => by simp) (fun _ _ => by simp)
   | restart => exact out_ok_files st _ (fun _ => by simp) (fun _ _ => by simp)
+  | graceful => exact out_ok_files st _ (fun _ => by simp) (fun _ _ => by simp)
 
 
 /-- memory view without any premise: the loop of `AddAliases` -/
@@ -488,22 +527,22 @@ theorem mv_fold_putMem (cur : List Key) (t : Nat) (i : Key) :
         · exact Or.inl (Or.inr ⟨by rw [← hk]; exact ha, hi, ht, hk, hi'⟩)
         · exact Or.inr ⟨hm, ha, hi, ht, hi'⟩
 
+/-- `abs` commutes with every step of a consistent state (the graceful shutdown writes nothing there) -/
+theorem abs_step {st : St} (h : MemOk st) (op : Op) : abs (step st op).1 = specStep (abs st) op := by
+  by_cases hg : op = .graceful
+  · subst hg
+    funext t i
+    simp only [step, flush_id h, specStep, abs]
+  · exact abs_step_files st op hg
+
 theorem refines_of_memOk (ops : List Op) : ∀ (st : St), MemOk st → Refines (abs st) st ops := by
   induction ops with
   | nil => intro _ _; trivial
   | cons op r ih =>
     intro st h
-    refine ⟨out_ok_mem h op, abs_step st op, ?_⟩
-    rw [← abs_step]
+    refine ⟨out_ok_mem h op, abs_step h op, ?_⟩
+    rw [← abs_step h]
     exact ih _ (step_memOk h op)
-
-theorem refinesFiles_all (ops : List Op) : ∀ (st : St), RefinesFiles (abs st) st ops := by
-  induction ops with
-  | nil => intro _; trivial
-  | cons op r ih =>
-    intro st
-    refine ⟨fun h1 h2 => out_ok_files st op h1 h2, abs_step st op, ?_⟩
-    rw [← abs_step]; exact ih _
 
 theorem memOk_run (ops : List Op) : ∀ (st : St), MemOk st → MemOk (run st ops).1 := by
   induction ops with
@@ -559,5 +598,6 @@ theorem frame (st : St) (op : Op) (t : Nat) (ht : op.tenant = some t) (t' : Nat)
   | list t0 => simp [step]
   | resolve t0 a => simp [step]
   | restart => simp [Op.tenant] at ht
+  | graceful => simp [Op.tenant] at ht
 
 end SigModel.Lemmas.C20K.Alias
